@@ -41,7 +41,7 @@ _DESC = {}
 
 
 def describer(facts, body, stop_named=False):
-    k = (id(facts), body.id, stop_named)
+    k = (facts.uid, body.id, stop_named)
     d = _DESC.get(k)
     if d is None:
         d = Describer(facts, body, stop_named=stop_named)
@@ -115,7 +115,7 @@ _BR = {}
 
 
 def branches(facts, body, stop_named=False):
-    k = (id(facts), body.id, stop_named)
+    k = (facts.uid, body.id, stop_named)
     if k not in _BR:
         _BR[k] = _branches(facts, body, stop_named)
     return _BR[k]
@@ -198,7 +198,7 @@ _MAY = {}
 
 def may_reach(facts, body, pats, depth=3):
     """body (or a closure it defines, or a workspace-local callee up to `depth`) calls a callee matching pats"""
-    key = (id(facts), body.id, tuple(pats), depth)
+    key = (facts.uid, body.id, tuple(pats), depth)
     if key in _MAY:
         return _MAY[key]
     _MAY[key] = False
@@ -239,7 +239,7 @@ _MUST = {}
 
 def must_call(facts, body, pats, depth=3):
     """every entry->normal-return path of body passes a site that is (or must-calls, depth-limited) pats"""
-    key = (id(facts), body.id, tuple(pats), depth)
+    key = (facts.uid, body.id, tuple(pats), depth)
     if key in _MUST:
         return _MUST[key]
     _MUST[key] = False
@@ -371,7 +371,7 @@ _FW = {}
 
 
 def field_writes(facts, adt_pat, name, crate=None, include_borrows=True):
-    k = (id(facts), adt_pat, name, crate, include_borrows)
+    k = (facts.uid, adt_pat, name, crate, include_borrows)
     if k not in _FW:
         _FW[k] = _field_writes(facts, adt_pat, name, crate, include_borrows)
     return list(_FW[k])
@@ -468,7 +468,7 @@ _CN = {}
 
 
 def constructions(facts, adt_pat, variant=None, crate=None):
-    k = (id(facts), adt_pat, variant, crate)
+    k = (facts.uid, adt_pat, variant, crate)
     if k not in _CN:
         _CN[k] = _constructions(facts, adt_pat, variant, crate)
     return list(_CN[k])
